@@ -836,8 +836,9 @@ def ic_walk_stage(out, q, seed, err_filter, name="index-walks"):
     cmds = []
     for prof in ("dev", "release"):
         tr = os.path.join(wd, "%s.%s.ndjson" % (name, prof))
-        args = [BIN[prof], "ic-walk", "--seed", str(seed * 100 + 41), "--runs", str(24 if q else 120), "--len",
-                str(4000 if q else 20000), "--out", tr]
+        # (the monitor carries the container's whole contents: validation time grows with runs x len^2)
+        args = [BIN[prof], "ic-walk", "--seed", str(seed * 100 + 41), "--runs", str(24 if q else 72), "--len",
+                str(4000 if q else 9000), "--out", tr]
         cmds.append(args)
         jobs.append({"label": "walk-" + prof, "trace": tr, "scenarios": tr, "profile": profile_label(prof), "replay": "regen",
                      "sigprefix": "index-walk", "regen": {"args": args[1:-1], "module": "TraceIC.tla", "cfg": "TraceIC.cfg"}})
